@@ -68,11 +68,16 @@ def deref(e, args, fr, m):
         return ValRef(v.inner)
     if isinstance(v, Adt) and v.ty == 'PathBuf':
         return v
+    if isinstance(v, Adt) and v.ty == 'CellGuard':
+        return v.fields[0]             # RefMut / Ref / MutexGuard: the reference to the cell's content
     raise Unsupported('deref of %r' % (v,))
 
 
 @contract(r'^<.* as DerefMut>::deref_mut$')
 def deref_mut(e, args, fr, m):
+    v = e.load(args[0])
+    if isinstance(v, Adt) and v.ty == 'CellGuard':
+        return v.fields[0]
     return args[0]
 
 
@@ -614,7 +619,9 @@ def call_closure(e, fr, clo, argv):
         for name, fl in e.program.items():
             f = fl[0]
             if '{closure#' in name and f.params and span in f.params[0][1]:
-                return e.call_mir(f, [ValRef(clo)] + list(argv), fr.depth + 1)
+                # Fn / FnMut bodies take the closure by reference, FnOnce bodies by value
+                me = ValRef(clo) if f.params[0][1].lstrip().startswith('&') else clo
+                return e.call_mir(f, [me] + list(argv), fr.depth + 1)
         raise Unsupported('closure body ' + clo.name)
     if isinstance(clo, FnItem):
         return e.call(fr, clo.name, list(argv))
@@ -2069,6 +2076,178 @@ def str_index_range(e, args, fr, m):
             raise Panic('slice index starts at %d but ends at %d' % (a, b))
         return NameStr(s_.chars[a:b])
     raise Unsupported('byte-range slice of a symbolic string')
+
+
+# ------------------------------------------------------------------------------------- process-wide state: atomics, cells
+def _atomic_cell(e, ref):
+    v = e.load(ref)
+    if not (isinstance(v, Adt) and v.ty == 'Atomic'):
+        raise Unsupported('atomic operation on %r' % (v,))
+    return v
+
+
+@contract(r'^Atomic(?:Usize|Isize|U8|U16|U32|U64|I8|I16|I32|I64|Bool)?(?:::<\w+>)?::new$')
+def atomic_new(e, args, fr, m):
+    return Adt('Atomic', None, (e.force(args[0]),))
+
+
+@contract(r'^Atomic(?:\w*)(?:::<\w+>)?::(fetch_add|fetch_sub|fetch_max|fetch_min|fetch_and|fetch_or|fetch_xor|swap|store|load|into_inner|get_mut|'
+          r'compare_exchange|compare_exchange_weak|fetch_update::<.*>)$')
+def atomic_op(e, args, fr, m):
+    """sequentially consistent single-thread semantics (threads are outside every claim): read-modify-write on the cell"""
+    op = m.group(1)
+    if op == 'into_inner':
+        return e.force(args[0]).fields[0]
+    cell = _atomic_cell(e, args[0])
+    old = e.force(cell.fields[0])
+    if op == 'load':
+        return old
+    if op == 'get_mut':
+        raise Unsupported('Atomic::get_mut')
+    if op.startswith('fetch_update'):
+        raise Unsupported('Atomic::fetch_update')
+    x = e.force(args[1])
+    if op == 'store':
+        e.store(args[0], Adt('Atomic', None, (x,)))
+        return UNIT
+    if op in ('compare_exchange', 'compare_exchange_weak'):
+        new = e.force(args[2])
+        same = old == x if isinstance(old, bool) else e.binop('Eq', old, x)
+        if e.branch(same):
+            e.store(args[0], Adt('Atomic', None, (new,)))
+            return ok(old)
+        return err(old)
+    if isinstance(old, bool) or isinstance(x, bool) or z3.is_bool(old) or z3.is_bool(x):
+        f = {'fetch_and': lambda a, b: conj(e, [a, b]), 'fetch_or': lambda a, b: disj([a, b]), 'swap': lambda a, b: b,
+             'fetch_xor': lambda a, b: z3.Xor(z3.BoolVal(a) if isinstance(a, bool) else a, z3.BoolVal(b) if isinstance(b, bool) else b)}.get(op)
+        if f is None:
+            raise Unsupported('AtomicBool::' + op)
+        e.store(args[0], Adt('Atomic', None, (f(old, x),)))
+        return old
+    if op == 'swap':
+        new = x
+    elif op in ('fetch_max', 'fetch_min'):
+        new = x if e.branch(e.binop('Gt' if op == 'fetch_max' else 'Lt', x, old)) else old
+    else:
+        # fetch_add / fetch_sub wrap around on overflow (documented)
+        bop = {'fetch_add': 'Add', 'fetch_sub': 'Sub', 'fetch_and': 'BitAnd', 'fetch_or': 'BitOr', 'fetch_xor': 'BitXor'}[op]
+        if bop in ('Add', 'Sub'):
+            r = e.binop(bop + 'WithOverflow', old, x)
+            new = r.fields[0]
+        else:
+            new = e.binop(bop, old, x)
+    e.store(args[0], Adt('Atomic', None, (new,)))
+    return old
+
+
+@contract(r'^(?:RefCell|Cell|UnsafeCell|OnceCell|Mutex|RwLock)::<.*>::new$')
+def cell_new(e, args, fr, m):
+    return Adt('CellBox', None, (args[0],))
+
+
+def _cell_inner_ref(e, ref):
+    """reference to the content of the cell a reference points to"""
+    r = ref
+    while True:
+        v = e.force(r)
+        if isinstance(v, Ref):
+            inner = e.force(e.read_place(v.frame, (v.local, v.projs)))
+            if isinstance(inner, (Ref, ValRef)):
+                r = inner
+                continue
+            if not (isinstance(inner, Adt) and inner.ty == 'CellBox'):
+                raise Unsupported('cell operation on %r' % (inner,))
+            return Ref(v.frame, v.local, tuple(v.projs) + (('field', 0, '?'),))
+        raise Unsupported('cell reached through %r (not a place)' % (v,))
+
+
+@contract(r'^RefCell::<.*>::(borrow|borrow_mut|try_borrow_mut|try_borrow)$|^(?:Mutex|RwLock)::<.*>::(lock|read|write)$')
+def refcell_borrow(e, args, fr, m):
+    """single-threaded, and the crate's borrows are scoped: the dynamic borrow flag is not modelled (a double borrow would be a panic)"""
+    g = Adt('CellGuard', None, (_cell_inner_ref(e, args[0]),))
+    which = m.group(1) or m.group(2)
+    return ok(g) if which in ('try_borrow', 'try_borrow_mut', 'lock', 'read', 'write') else g
+
+
+@contract(r'^<(?:RefMut|Ref|MutexGuard|RwLockReadGuard|RwLockWriteGuard)<.*> as (?:Deref|DerefMut)>::(?:deref|deref_mut)$')
+def guard_deref(e, args, fr, m):
+    g = e.load(args[0])
+    if not (isinstance(g, Adt) and g.ty == 'CellGuard'):
+        raise Unsupported('deref of %r' % (g,))
+    return g.fields[0]
+
+
+@contract(r'^Cell::<.*>::(get|set|replace|take)$')
+def cell_get_set(e, args, fr, m):
+    inner = _cell_inner_ref(e, args[0])
+    old = e.load(inner)
+    op = m.group(1)
+    if op == 'get':
+        return old
+    if op == 'take':
+        raise Unsupported('Cell::take')
+    e.store(inner, args[1])
+    return UNIT if op == 'set' else old
+
+
+@contract(r'^LocalKey::<(.*)>::new$')
+def localkey_new(e, args, fr, m):
+    # the key is the const item that is being evaluated (`const LINE_FEEDS: LocalKey<..> = { LocalKey::new(..) }`)
+    return Adt('LocalKey', None, (Str(fr.fn.name), Str(m.group(1))))
+
+
+@contract(r'^LocalKey::<(.*)>::(with|try_with)::<.*>$')
+def localkey_with(e, args, fr, m):
+    key = e.load(args[0])
+    if not (isinstance(key, Adt) and key.ty == 'LocalKey'):
+        raise Unsupported('LocalKey::with on %r' % (key,))
+    name, ty = key.fields[0].v, key.fields[1].v
+
+    def init():
+        from .types import norm_type
+        cands = [f for f in e.program.get('__rust_std_internal_init_fn', []) if norm_type(f.ret) == ty]
+        if len(cands) != 1:
+            raise Unsupported('initializer of the thread-local %s: %d candidates of type %s' % (name, len(cands), ty))
+        return e.call_mir(cands[0], [], fr.depth + 1)
+    cell = e.global_cell('thread_local ' + name, init)
+    r = call_closure(e, fr, args[1], [cell])
+    return ok(r) if m.group(2) == 'try_with' else r
+
+
+@contract(r'^(?:mem::)?needs_drop::<.*>$')
+def mem_needs_drop(e, args, fr, m):
+    return True
+
+
+@contract(r'^<impl \[.*\]>::partition_point::<.*>$')
+def slice_partition_point(e, args, fr, m):
+    """index of the first element for which the predicate is false (the slice is assumed partitioned, as documented; evaluated left to right)"""
+    v = e.load(args[0])
+    for k, x in enumerate(v.items):
+        if not e.branch(call_closure(e, fr, args[1], [ValRef(x)])):
+            return Int(k, 'usize')
+    return Int(len(v.items), 'usize')
+
+
+@contract(r'^<impl str>::match_indices::<char>$|^<impl str>::char_indices$')
+def str_match_indices(e, args, fr, m):
+    s_ = e.load(args[0])
+    if not s_.concrete:
+        raise Unsupported('match_indices / char_indices of a symbolic string')
+    out, off = [], 0
+    if m.group(0).endswith('char_indices'):
+        for ch in s_.v:
+            out.append(Tuple((Int(off, 'usize'), Int(ord(ch), 'char'))))
+            off += len(ch.encode('utf-8'))
+        return IterV(out, 0, 'val')
+    c = e.force(args[1])
+    if not c.concrete:
+        raise Unsupported('match_indices with a symbolic character')
+    for ch in s_.v:
+        if ord(ch) == c.v:
+            out.append(Tuple((Int(off, 'usize'), Str(ch))))
+        off += len(ch.encode('utf-8'))
+    return IterV(out, 0, 'val')
 
 
 @contract(r'^(?:write|ewrite)$|^(?:io::)?(?:_print|_eprint)$')
